@@ -74,7 +74,62 @@ def predicates(h, N):
     return e
 
 
+def extract_on_demand(ghr):
+    """OnDemandMedia.get, extracted from the source text, with the module globals it reads replaced by stand-ins"""
+    import contextlib
+    import io
+    import logging
+    import textwrap
+    path = os.path.join(REPO, 'dashlive/server/requesthandler/media_requests.py')
+    src = open(path).read()
+    tree = ast.parse(src)
+    for cls in tree.body:
+        if isinstance(cls, ast.ClassDef) and cls.name == 'OnDemandMedia':
+            for fn in cls.body:
+                if isinstance(fn, ast.FunctionDef) and fn.name == 'get':
+                    fn.returns = None
+                    for a in fn.args.args:
+                        a.annotation = None
+                    ns = {'flask': flask, 'logging': logging}
+                    exec(compile(ast.fix_missing_locations(ast.Module(body=[fn], type_ignores=[])), path, 'exec'), ns)
+                    return ns
+    raise KeyError('OnDemandMedia.get')
+
+
+def build_on_demand(variant, i):
+    import contextlib
+    import io
+    from types import SimpleNamespace as NS
+    ghr = extract()
+    ns = extract_on_demand(ghr)
+    N = int(i['N'])
+    h = i['header'] if 'header' in i else header_from(i)
+    env = predicates(h, N)
+    blob = bytes((7 * k + 3) % 251 for k in range(N))
+    env['hdr_is'] = lambda d, key, *parts: d.get(key) == ''.join(str(p) for p in parts)
+    env['is_slice'] = lambda d, lo, hi: d == blob[lo:hi] and len(d) == hi - lo
+    opened = []
+
+    @contextlib.contextmanager
+    def open_file(start=None, buffer_size=4096):
+        f = io.BytesIO(blob)
+        f.seek(start or 0)
+        opened.append(start)
+        yield f
+    ns['current_media_file'] = NS(blob=NS(size=N), open_file=open_file)
+    me = NS(get_http_range=lambda n: ghr(None, n))
+    app = flask.Flask('replay')
+
+    def call():
+        with app.test_request_context('/x', headers=({'Range': h} if h is not None else {})):
+            r = ns['get'](me, 'stream', 'file', variant)
+            return NS(status=r.status_code, data=r.get_data(), headers=dict(r.headers))
+    return {'env': env, 'call': call}
+
+
 def build(key, variant, i):
+    if key.endswith('OnDemandMedia.get'):
+        return build_on_demand(variant, i)
     fn = extract()
     N = int(i['N'])
     h = i['header'] if 'header' in i else header_from(i)
